@@ -164,7 +164,7 @@ func c14RunParser(text string) (res c14ParseRes, timedOut bool) {
 	select {
 	case r := <-ch:
 		return r, false
-	case <-time.After(8 * time.Second):
+	case <-time.After(3 * time.Second):
 		return c14ParseRes{}, true
 	}
 }
@@ -340,6 +340,24 @@ func c14Gen(g *G) {
 	g.Emit(c14ParseOp("bad-bit", "foo#1 flags:# x:flags.?int = Foo;\n", "-"), "boundary")
 	g.Emit(c14ParseOp("huge-bit", "foo#1 flags:# x:flags.99999999999999999999?int = Foo;\n", "-"), "boundary")
 	g.Emit(c14ParseOp("no-question", "foo#1 flags:# x:flags.1int = Foo;\n", "-"), "boundary")
+
+	// witnesses of the generator defects: Bool result, argument named like a package / keyword / local, enum
+	// constant named like its type, enum and vector results
+	{
+		enumT := []*c14Def{{Name: "foo", CRC: 1, Result: "Foo"}}
+		boolFn := &c14Def{Name: "setFoo", CRC: 0x10, Func: true, Result: "Bool", Params: []c14Param{{Name: "errors", Type: "int"}, {Name: "type", Type: "Foo"}, {Name: "c", Type: "string", Vec: true}}}
+		enumFn := &c14Def{Name: "getFoo", CRC: 0x11, Func: true, Result: "Foo"}
+		vecFn := &c14Def{Name: "getFoos", CRC: 0x12, Func: true, Result: "Foo", ResVec: true, Params: []c14Param{{Name: "flags", Type: "bitflags"}, {Name: "range", Type: "long", Opt: true, Bit: 31}}}
+		w := &c14Schema{}
+		for _, d := range enumT {
+			w.items = append(w.items, c14Item{kind: "def", def: d})
+		}
+		w.items = append(w.items, c14Item{kind: "functions"})
+		for _, d := range []*c14Def{boolFn, enumFn, vecFn} {
+			w.items = append(w.items, c14Item{kind: "def", def: d})
+		}
+		g.Emit(fmt.Sprintf("c14.gen witness-generator %s %s", c14Esc(c14Render(w, c14Layout{}, r)), c14ExpectDecls(w)), "witness")
+	}
 
 	// (1) every schema file of the repository
 	var files []string
